@@ -7,6 +7,8 @@ set <id> <addr> <endoff> <meth> <allocOk 0|1>
 search <id> <addr>
 reinst <id>
 copy <src> <dst> <allocMap 0|1> <allocRanges 0|1>
+lnew
+layout <k> <n> {<first> <last> <meth> <direct 0|1>}*n     -- sys_set_layout, k-th allocation fails (0 = none)
 ```
 Output: `> <status> <n> <endoff>:<meth> ...` after `set`/`new`, `> <meth>` after
 search, `> copy ok|null <n> …` after copy.
@@ -20,31 +22,49 @@ def showMap (m : Map) : String :=
 def showStatus : Status → String
   | .ok => "ok" | .nomem => "nomem" | .oob => "oob"
 
-partial def loop (h : IO.FS.Stream) (maps : Array Map) : IO Unit := do
+def showSlot : Option Map → String
+  | none => "null"
+  | some m => showMap m
+
+def parseRegions : List String → List LRegion
+  | f :: l :: m :: d :: rest => ⟨f.toNat!, l.toNat!, m.toInt!, d == "1"⟩ :: parseRegions rest
+  | _ => []
+
+/-- the allocation stream in which exactly the k-th request fails -/
+def failAt (k : Nat) : List Bool := if k = 0 then [] else List.replicate (k - 1) true ++ [false]
+
+partial def loop (h : IO.FS.Stream) (maps : Array Map) (sys : Sys := ⟨none, none⟩) : IO Unit := do
   let line ← h.getLine
   if line.isEmpty then return ()
   let ws := (line.trimAscii.toString.splitOn " ").filter (· ≠ "")
   match ws with
+  | ["lnew"] =>
+    IO.println "> ok"
+    loop h maps ⟨none, none⟩
+  | "layout" :: k :: _n :: rest =>
+    let (st, sys') := setLayout sys (parseRegions rest) (failAt k.toNat!)
+    IO.println s!"> {showStatus st} M {showSlot sys'.map} R {showSlot sys'.rev}"
+    loop h maps sys'
   | ["new", id] =>
     IO.println "> ok 0"
-    loop h (maps.setIfInBounds id.toNat! [])
+    loop h (maps.setIfInBounds id.toNat! []) sys
   | ["set", id, addr, endoff, meth, ok] =>
     let m := maps.getD id.toNat! []
     let (st, m') := mapSet m addr.toNat! ⟨endoff.toNat!, meth.toInt!⟩ (ok == "1")
     IO.println s!"> {showStatus st} {showMap m'}"
-    loop h (maps.setIfInBounds id.toNat! m')
+    loop h (maps.setIfInBounds id.toNat! m') sys
   | ["reinst", id] =>
     -- installing the map in a translation system and taking it back is the identity on the map
     IO.println s!"> ok {showMap (maps.getD id.toNat! [])}"
-    loop h maps
+    loop h maps sys
   | ["search", id, addr] =>
     IO.println s!"> {mapSearch (maps.getD id.toNat! []) addr.toNat!}"
-    loop h maps
+    loop h maps sys
   | ["copy", src, dst, a1, a2] =>
     match mapCopy (maps.getD src.toNat! []) (a1 == "1") (a2 == "1") with
-    | some c => IO.println s!"> copy ok {showMap c}"; loop h (maps.setIfInBounds dst.toNat! c)
-    | none => IO.println "> copy null"; loop h maps
-  | _ => IO.println "> bad-op"; loop h maps
+    | some c => IO.println s!"> copy ok {showMap c}"; loop h (maps.setIfInBounds dst.toNat! c) sys
+    | none => IO.println "> copy null"; loop h maps sys
+  | _ => IO.println "> bad-op"; loop h maps sys
 
 def run (h : IO.FS.Stream) : IO Unit := loop h (Array.replicate 4 [])
 end Driver.Map
